@@ -344,25 +344,26 @@ def write_replay(pid, o, results):
 
 ASSUMPTIONS_COMMON = [
     "Verus 0.2026.09.13 / Z3, rustc 1.98.1, Kani 0.68 / CBMC 6.11, the extractor and this driver are trusted",
-    "A-TRAIT: the GarnishData trait contract of units/V1_runtime/preamble.rs holds for the data implementation in use (checked only where unit V2 says so)",
+    "A-TRAIT: the GarnishData trait contract of units/V1_runtime/preamble.rs holds for the data implementation in use (checked only where units V2 (Basic) and V3 (Simple) say so, clause by clause, by reading the same statement in both files)",
     "A-HOST: host callbacks (resolve/apply/defer_op) obey the documented protocol: accepted => exactly one valid result on the operand stack, declined => operand stack untouched",
-    "A-AXIOMS: Size behaves as nat, Clone is identity, comparison operators implement the spec functions; iterators yield their remaining items in order (next_law); Extents(zero, max_value) selects a whole sequence; equality of Size/Symbol/Char/Byte is structural, of Number numeric; counting up from zero stays a list position (is_idx); push_register leaves the value table untouched (proof fn axioms() / trait clauses)",
+    "A-AXIOMS: Size behaves as nat, Clone is identity, comparison operators implement the spec functions; iterators yield their remaining items in order (next_law); Extents(zero, max_value) selects a whole sequence; equality of Size/Symbol/Char/Byte is structural, of Number numeric; counting up from zero stays a list position and the sum of two list positions is one (is_idx); push_register leaves the value table untouched (proof fn axioms() / trait clauses)",
     "A-MEM (unit V2): push_ok_n - the appends a method performs fit the machine (memory is not exhausted within the call)",
     "A-FROM: `?` converting Data::Error into RuntimeError yields err_from(e) with code Unknown (vstd leaves spec_from uninterpreted)",
     "RuntimeError::{new,new_message,unsupported_types,get_type} and std::cmp::Ordering::{is_lt,is_le,is_gt,is_ge} carry assumed specifications",
     "log macros, format! message text and derives are dropped by the extractor (rules R1, R2, R7)",
+    "closures at call sites get parameter types and an `ensures` by substitution of the closure header (rule R8, listed per function under `extraction`); Verus checks the closure body against that `ensures`",
 ]
 
 NOT_DECIDED = {
-    "C06": "that `build` emits balanced programs (static half); conformance of SimpleGarnishData's stack methods to the trait contract (Basic's are proved in unit V2); iterate_concatenation_mut* / concatenation_len / list_from_char_list / list_from_byte_list are assumed contracts",
-    "C07": "everything not under contract: lexer, parser, builder, conversions, display, optimise/clone, Basic's end_list, SimpleGarnishData internals",
+    "C06": "that `build` emits balanced programs (static half); that the per-implementation clauses of V2 (Basic) and V3 (Simple) for the stack methods are the same statements as the V1 trait contract is by reading, no refinement proof links the files; two closure statements of type_cast and the Slice-of-Concatenation arm of access_with_symbol are assumed stand-ins",
+    "C07": "everything not under contract: lexer, parser, builder, conversions, display, optimise/clone, Basic's end_list, SimpleGarnishData's interning adders, iterators and clone/optimise",
     "C08": "two closure statements of type_cast (Concatenation -> List) are cut out and assumed; the data implementations' own host plumbing",
     "C09": "f64::powf and f64 % f64 (libm, unmodelled by CBMC); float * and / exactness and in-range float // (tier deep, not registered); integer ** exactness only in the thorough tier",
     "C10": "that `build` places right operands / arms behind the jumps; evaluation counts over whole programs",
     "C11": "slice operands (frame only); that the data implementations' iterators yield the sequences the trait contract names; termination of the work list; equivalence-relation laws of the unbounded relation are by reading of `deq`, not a machine-checked lemma",
     "C12": "slices of char/byte lists; chars and bytes are ordered by the data object's own PartialOrd (assumed to be the natural order)",
-    "C15": "SimpleGarnishData's interning (HashMap + SipHash): not claimed; Basic's end_list and conversions other than add_byte_list_from",
-    "C16": "SimpleGarnishData's open addressing; Basic's end_list (so the step from add_to_list to the list-cell invariant is assumed); iterate_concatenation_mut_with_method (assumed): concatenations of lists are decided only through the trait-level `concat_flat`",
+    "C15": "SimpleGarnishData's interning adders (HashMap + SipHash; symbols, text, byte lists): not claimed; Basic's end_list, Basic's text/symbol adders and conversions other than add_byte_list_from",
+    "C16": "Basic's end_list (so the step from add_to_list to the list-cell invariant is assumed for Basic; Simple's end_list is proved); the data implementations' iterators (get_list_item_iter, get_concatenation_iter); symbol lookup in a Slice of a Concatenation (assumed stand-in); numeric indexing of concatenations is under frame contracts only",
     "C17": "that `build` compiles an identifier to one Resolve carrying its symbol; call counts over whole programs; the data implementations' own resolve/apply plumbing",
 }
 
